@@ -42,7 +42,7 @@ enum Tier {
 
 /// An `io::Read` over a byte string that hands out at most `step` bytes per call (`step` 0: 1, 2, 3, …
 /// bytes) and, if asked, reports `ErrorKind::Interrupted` before every second piece.
-struct Pieces<'a> {
+pub struct Pieces<'a> {
     data: &'a [u8],
     pos: usize,
     step: usize,
@@ -50,7 +50,7 @@ struct Pieces<'a> {
     interrupt: bool,
 }
 impl<'a> Pieces<'a> {
-    fn new(data: &'a [u8], step: usize, interrupt: bool) -> Self {
+    pub fn new(data: &'a [u8], step: usize, interrupt: bool) -> Self {
         Pieces { data, pos: 0, step, calls: 0, interrupt }
     }
 }
@@ -285,6 +285,7 @@ pub fn subs() -> Vec<Sub<'static>> {
         Sub { name: "mutations", oracle: &oracle, minimise_bytes: true },
         Sub { name: "long-numbers", oracle: &oracle, minimise_bytes: true },
         Sub { name: "many-small", oracle: &oracle, minimise_bytes: false },
+        Sub { name: "large-utf8", oracle: &oracle, minimise_bytes: false },
     ]
 }
 
@@ -378,6 +379,18 @@ pub fn run(ctx: &Ctx) {
 
     // (c2) shallow documents with hundreds of tiny containers (state that accumulates per container)
     ctx.search(&sub("many-small"), "many-small", ctx.n(1_200, 20_000), 200, &|src: &mut Src| gens::gen_many_small(src));
+
+    // (c3) documents of 4..64 KiB filled with multi-byte characters, intact and with one byte damaged near a
+    // 4 KiB mark
+    ctx.search(&sub("large-utf8"), "large-utf8", ctx.n(300, 5_000), 160, &|src: &mut Src| {
+        let mut d = gens::gen_large_utf8(src);
+        if src.chance(128) {
+            let mark = 4096 * (1 + src.below((d.len() / 4096).max(1)));
+            let at = (mark + src.below(9)).saturating_sub(4).min(d.len() - 1);
+            d[at] = *src.pick(&[0x80u8, 0xff, b'a', 0xc3, 0xe4]);
+        }
+        d
+    });
 
     // (d) systematic mutation sweep over generated documents
     let s = sub("mutations");
